@@ -424,8 +424,10 @@ type rung struct {
 	gray  string
 }
 
+// sliceElem returns the element type of a slice-typed field (C16 speaks of
+// "slice fields": a field of a named slice type is one too).
 func sliceElem(t types.Type) types.Type {
-	if s, ok := t.(*types.Slice); ok {
+	if s, ok := t.Underlying().(*types.Slice); ok {
 		return s.Elem()
 	}
 	return nil
